@@ -11,6 +11,7 @@ func init() {
 			{Name: "population", Quick: 1500, Thorough: 80000, Run: c14Pop},
 			{Name: "run-fragmenting-histories", Quick: 1500, Thorough: 80000, Run: c14RunHist},
 			{Name: "dense-low-keys-small-chunks", Quick: 1500, Thorough: 80000, Run: c14DenseLowKeys},
+			{Name: "andany-then-removals", Quick: 1500, Thorough: 60000, Run: c11AndAnyScratch},
 		},
 	})
 }
@@ -159,6 +160,18 @@ func c14DenseLowKeys(c *Ctx) {
 			x := v.Hi
 			if front {
 				x = v.Lo
+			}
+			if v.Hi-v.Lo >= 2 && v.Lo>>16 >= 1 && r.Chance(0.25) {
+				// a range that starts at the end of the previous chunk and trims the front of this run,
+				// leaving its last 1-3 values (the multi-chunk path of RemoveRange)
+				s0 := (v.Lo>>16)<<16 - 1
+				e0 := v.Hi - r.Range(0, 2)
+				c.Step("RemoveRange(%d,%d)", s0, e0)
+				if !step("RemoveRange-across-chunks", func() { b.RemoveRange(s0, e0) }, func() { m.RemoveRange(s0, e0-1) }) {
+					return
+				}
+				h = mix(h, e0)
+				continue
 			}
 			op := []string{"Remove", "CheckedRemove", "RemoveRange", "Flip"}[r.Intn(4)]
 			c.Step("%s(%d)", op, x)
